@@ -551,6 +551,12 @@ def gen_scenario(seed: int, optimizer: str, family: str, mode: str, validate, *,
             # the observed task's class is defined only after the earlier runs (notebook cell, REPL)
             task["cls"] = "LateTask"
             task["late"] = True
+        elif rh.random() < 0.3:
+            # the caller keeps ONE Task object and re-declares its search space / objective / direction between the runs
+            # (same class, same number of coordinates)
+            elig = [h for h in desc["history"] if h.get("kind") in ("other_space", "other_objective", "same")]
+            if elig:
+                elig[-1]["reuse_object"] = True
     if not desc["history"] and not opts.get("no_via"):
         # the OptimizationResult may reach the user through the utilities that drive optimizers generically
         rv = random.Random(H(seed, "via"))
